@@ -34,14 +34,15 @@ PROP = 'C08'
 LEVEL = 'translation_validation'
 TIMEOUT_MS = 30000
 
-PATTERNS = ['free', 'ge0', 'le0', 'lo', 'hi', 'both', 'fix0', 'fixnz', 'lo0hi', 'lohi0', 'hineg', 'lopos', 'bothneg', 'bothpos']
+PATTERNS = ['free', 'ge0', 'le0', 'lo', 'hi', 'both', 'fix0', 'fixnz', 'lo0hi', 'lohi0', 'hineg', 'lopos', 'bothneg', 'bothpos',
+            'hi2', 'lo2']
 
 META = dict(
     functions=['rsome.lp.Model.do_math(primal=False)', 'rsome.socp.Model.do_math(primal=False)',
                'rsome.gcp.Model.do_math(primal=False) (no exp/LMI blocks)', 'rsome.ro.Model.do_math(primal=False)'],
     rule='one case = one model (bound-pattern tuple x row configuration, SOC member, or ro member); non-trivial = '
          'primal feasible and bounded (exact optimiser) so that the precondition of the property holds; distinct by name',
-    bounds='LP: <= 3 variables, every tuple of the 14 bound patterns for 2 variables (quick) / 3 variables (thorough, '
+    bounds='LP: <= 3 variables, every tuple of the 16 bound patterns for 2 variables (quick) / 3 variables (thorough, '
            'seeded subset), 1-3 rows mixing <=, >=, ==; SOC: norm-2/sumsqr/rsocone members with shared cone variables; '
            'ro: members of the C01 core family with LP/SOC counterparts',
     outside='LMI dual blocks (gcp.py:341-373); exponential-cone blocks: weak duality is decided for all feasible pairs '
@@ -87,6 +88,12 @@ def lp_desc(spec):
                 m.st(x[i] >= -3.0, x[i] <= -1.0)
             elif p == 'bothpos':
                 m.st(x[i] >= 1.0, x[i] <= 3.0)
+            elif p == 'hi2':
+                m.st(x[i] <= 1.5)
+                m.st(x[i] <= 2.5)          # a second, looser bound object on the same entry
+            elif p == 'lo2':
+                m.st(x[i] >= -0.5)
+                m.st(x[i] >= -2.0)
         for (a, s, b) in rows:
             e = (np.array(a, dtype=float) * x).sum()
             m.st(e <= b if s == 'le' else (e >= b if s == 'ge' else e == b))
